@@ -52,13 +52,13 @@ CHECKS = {
          'all resolvable type names), _doc_to_object runs with a symbolic wrapper key and with every JSON value kind in every '
          'slot; z3 decides whether any value of an inadmissible type can be delivered.',
     note='Universe: Base/Sub/SubSub/Other/Holder, XmlDocument (None, soft), Soap11 soft, JsonDocument soft. Non-fault exceptions are '
-         'judged under C10, not here. The xsi:type admission defect is a recorded known finding.'),
+         'judged under C10, not here. Also: binary scalars (YAML !!binary / msgpack bin) in text, number, date and boolean slots; SOAP header slots.'),
  'C10': dict(
     cat='model_checking', ref='DESIGN.md section 4 (C10)',
     text='Leaf parsers of every primitive run on symbolic adversarial text (free-form strings and date/time shapes with symbolic '
          'digits) through the XML, dict-document and HttpRpc entry points; every JSON kind in every slot; wrong nesting; symbolic '
          'xsi:type text. The solver explores all paths; any path ending in a non-Fault exception or a non-Client fault is a '
-         'counterexample. Seven concrete malformed documents per protocol go through the real parsers in the pipeline harness.',
+         'counterexample. Concrete malformed documents per protocol (15 generic request kinds, 40 protocol-specific hostile documents, prefix truncations, auxiliary-method requests) go through the real parsers and the WSGI transport.',
     note='The byte-level parsers (lxml, json, yaml, msgpack) are C code: random bytes / all prefix truncations are outside the solver '
          'part; the concrete malformed documents are enumeration, labelled as such. Text length <= 6 (plus length-guard boundaries).'),
  'C14': dict(
@@ -102,7 +102,7 @@ CHECKS = {
  'C18': dict(
     cat='model_checking', ref='DESIGN.md section 4 (C18)',
     text='Differential harness: the real _FunctionCall.__call__/_cb_sync path and the real JsonDocument wire path '
-         '(deserialize -> process_request -> serialize) run on the same symbolic arguments for eleven signatures (wrapped 0..3 '
+         '(deserialize -> process_request -> serialize) run on the same symbolic arguments for thirteen signatures and for two-call histories on one NullServer (wrapped 0..3 '
          'args, none/one/two returns, out_bare, bare with a complex argument, generator, raised Fault, Ignored), positional and '
          'keyword invocation; z3 proves equal delivered arguments and equal results.',
     note='Wire side is JsonDocument in the symbolic part; XmlDocument/Soap11 need lxml and are not compared. Argument values: '
@@ -113,15 +113,13 @@ CHECKS = {
          'names; for XML also a symbolic namespace) fed to the real decompose_incoming_envelope / generate_method_contexts / '
          'get_call_handles of JsonDocument, XmlDocument, Soap11, MessagePackRpc and HttpRpc-over-WSGI; z3 proves that the handles '
          'are exactly those registered under that exact qualified name and ResourceNotFoundError otherwise.',
-    note='One application with adversarially similar names (both service orders). Rejection of colliding names at construction and '
-         'HttpPattern matching quantify over programs and are not claimed.'),
+    note='One application with adversarially similar names (both service orders). HttpPattern routing is checked against a route table written in the harness (symbolic path); rejection of colliding names at construction is checked on three concrete universes (enumeration).'),
  'C17': dict(
     cat='other', ref='DESIGN.md section 4 (C17)',
     text='Option flow only: with all twelve parser options symbolic, z3 proves that XmlDocument/Soap11/Soap12.create_in_document '
          'build one parser per request with exactly the constructor values (no cross-wiring) and hand that parser the request '
          'bytes; the constructor defaults read from the live signature equal the safe set. What libxml2 does with the options '
-         '(entity expansion, DTD loading, time/memory bounds) is C code and is NOT shown; one concrete external-entity canary '
-         'runs on the real library during witness replay.',
+         '(entity expansion, DTD loading, time/memory bounds) is C code and is NOT modelled; concrete canary documents (entities internal/chained/external/from an external DTD, nesting and expansion bombs, with and without transport charset / encoding declaration, plain and multipart/SwA parse paths) run on the real library and are labelled as concrete.',
     note='Trusted base: lxml/libxml2 honouring resolve_entities=False, load_dtd=False, no_network=True, huge_tree=False. The lxml '
          'entry points are replaced by a recording stub in the symbolic part.'),
  'C01': dict(
@@ -138,8 +136,8 @@ CHECKS = {
          'stated as such). One universe of classes; validator None and soft.'),
  'C06': dict(
     cat='model_checking', ref='DESIGN.md section 4 (C06)',
-    text='Partial. The real schema emitters run on 20 constrained leaf types and 11 occurrence ranges; advertised base type, facets, '
-         'minOccurs/maxOccurs are read back from the generated nodes. For a symbolic leaf text / occurrence count z3 decides whether '
+    text='Partial. The real schema emitters run on 25 constrained leaf types and 11 occurrence ranges; advertised base type, facets, '
+         'minOccurs/maxOccurs and attribute use are read back from the generated nodes. For a symbolic leaf text / occurrence count z3 decides whether '
          'a reference model of XSD semantics and spyne soft validation can disagree, and whether a value admitted by the type can '
          'be written as text the schema rejects. Witnesses and counterexamples are judged by the real compiled lxml XMLSchema.',
     note='"The schema compiles" and multi-namespace import closure are concrete facts observed while building the harness universe, '
